@@ -485,7 +485,8 @@ const BAD_TEMPLATES: &[&str] = &["@(\n", "@()\n@if x {", "no declaration", "@()\
 const DIRS: &[&str] = &["sub", "admin", "a", "b2", "deep_dir", "x"];
 const STEMS: &[&str] = &["page", "index", "base", "item", "t1", "footer", "err"];
 const EXTS: &[&str] = &["html", "svg", "xml"];
-const STEMS_ODD: &[&str] = &["my-page", "my_page", "404", "n404", "a.b", "a_b", "a b", "Page", "page_", "pag\u{e9}", "r#page", "page.rs"];
+// (the empty stem: a file called just `.rs.html` is a template named `_html`; it must not borrow a name from its directory)
+const STEMS_ODD: &[&str] = &["my-page", "my_page", "404", "n404", "a.b", "a_b", "a b", "Page", "page_", "pag\u{e9}", "r#page", "page.rs", "", ""];
 
 fn rand_tree(r: &mut Rng, depth: usize, prefix: &str, out: &mut Vec<Step>, allow_bad: bool) {
     let n = r.range(0, 4);
